@@ -209,33 +209,66 @@ pub fn c13(d: &Digest, out: &mut Vec<Violation>) {
             None => format!("t{}({}) on {:?}", b.tid, b.name.clone().unwrap_or_default(), BlockOn::from(b.obj)),
         })
         .collect();
-    // signatures of the listed findings
+    // signatures of the listed findings.  Each has a precise form in terms of the channel seam (the
+    // thread is blocked on the iterator's own queue) and, for trees in which that queue is no longer
+    // a crossbeam channel (the thread then shows as blocked on a condition variable), a form in
+    // terms of the client call it is inside.
     let first_shutdown = d.stores.iter().filter_map(|s| s.first_shutdown_inv).min();
+    // the iterator whose next() this thread is inside
+    let in_next = |tid: usize| -> Option<usize> {
+        d.ev.iter()
+            .rev()
+            .filter(|e| e.tid == tid)
+            .find_map(|e| match &e.k {
+                K::NextB { it } => Some(Some(*it)),
+                K::NextR { .. } => Some(None),
+                _ => None,
+            })
+            .flatten()
+    };
+    let iters_of = |store: usize| -> Vec<usize> {
+        d.calls.iter().filter_map(|c| match c.op { OpK::Iter { store: s, it } if s == store => Some(it), _ => None }).collect()
+    };
     for b in &d.run.out.blocked {
         let on = BlockOn::from(b.obj);
-        for (it, ch) in &d.iter_chan {
-            // F4: an iterator dropped before it returned None, somebody blocked sending on its queue
-            if on == BlockOn::ChanSend(*ch) && f4_signature(d, b.tid, *it) {
-                vk(out, "C13", "deadlock", format!("dropping an unexhausted iterator hung: {}", blocked.join("; ")), "F4");
-                return;
+        let on_channel = matches!(on, BlockOn::ChanSend(_) | BlockOn::ChanRecv(_));
+        // F4: an iterator dropped before it returned None, somebody blocked sending on its queue
+        let mut f4 = d.iter_chan.iter().any(|(it, ch)| on == BlockOn::ChanSend(*ch) && f4_signature(d, b.tid, *it));
+        if !f4 && !on_channel {
+            // (no channel to go by) the dropping thread itself never came back from the drop ...
+            f4 = d.calls.iter().any(|x| x.tid == b.tid && x.ret.is_none() && matches!(x.op, OpK::DropIter { it } if f4_signature(d, b.tid, it)));
+            // ... or a reducer is stuck while an iterator of its store was dropped early
+            if !f4 && on == BlockOn::Condvar {
+                if let Some(sd) = d.stores.iter().find(|sd| sd.rtid == Some(b.tid)) {
+                    f4 = iters_of(sd.idx).into_iter().any(|it| f4_signature(d, b.tid, it));
+                }
             }
-            // F7: next() on an iterator that was registered after the reducer loop had released
-            // its subscribers: iter() had not returned when the reducer took its last item from
-            // the dispatch queue (the shutdown marker), and the reducer loop is over
-            if on == BlockOn::ChanRecv(*ch) {
-                let ic = d.calls.iter().find(|c| matches!(c.op, OpK::Iter { it: i, .. } if i == *it));
-                if let (Some(ic), Some(fs)) = (ic, first_shutdown) {
-                    let OpK::Iter { store, .. } = ic.op else { continue };
-                    let sd = &d.stores[store];
-                    let last_take = sd.rtid.and_then(|rt| d.ev.iter().rposition(|e| e.tid == rt && matches!(&e.k, K::ChRecv { chan, .. } if Some(*chan) == sd.dchan)));
-                    let loop_over = match sd.rtid {
-                        Some(rt) => !d.run.out.blocked.iter().any(|x| x.tid == rt && !matches!(BlockOn::from(x.obj), BlockOn::ChanRecv(c) if Some(c) == sd.pool_chan)),
-                        None => true,
-                    };
-                    if ic.ret_or_max() > fs && ic.ret_or_max() > last_take.unwrap_or(0) && loop_over {
-                        vk(out, "C13", "deadlock", format!("next() on an iterator created during/after shutdown hung: {}", blocked.join("; ")), "F7");
-                        return;
-                    }
+        }
+        if f4 {
+            vk(out, "C13", "deadlock", format!("dropping an unexhausted iterator hung: {}", blocked.join("; ")), "F4");
+            return;
+        }
+        // F7: next() on an iterator that was registered after the reducer loop had released
+        // its subscribers: iter() had not returned when the reducer took its last item from
+        // the dispatch queue (the shutdown marker), and the reducer loop is over
+        let it7 = match d.iter_chan.iter().find(|(_, ch)| on == BlockOn::ChanRecv(**ch)) {
+            Some((it, _)) => Some(*it),
+            None if !on_channel => in_next(b.tid),
+            None => None,
+        };
+        if let Some(it) = it7 {
+            let ic = d.calls.iter().find(|c| matches!(c.op, OpK::Iter { it: i, .. } if i == it));
+            if let (Some(ic), Some(fs)) = (ic, first_shutdown) {
+                let OpK::Iter { store, .. } = ic.op else { continue };
+                let sd = &d.stores[store];
+                let last_take = sd.rtid.and_then(|rt| d.ev.iter().rposition(|e| e.tid == rt && matches!(&e.k, K::ChRecv { chan, .. } if Some(*chan) == sd.dchan)));
+                let loop_over = match sd.rtid {
+                    Some(rt) => !d.run.out.blocked.iter().any(|x| x.tid == rt && !matches!(BlockOn::from(x.obj), BlockOn::ChanRecv(c) if Some(c) == sd.pool_chan)),
+                    None => true,
+                };
+                if ic.ret_or_max() > fs && ic.ret_or_max() > last_take.unwrap_or(0) && loop_over {
+                    vk(out, "C13", "deadlock", format!("next() on an iterator created during/after shutdown hung: {}", blocked.join("; ")), "F7");
+                    return;
                 }
             }
         }
@@ -246,8 +279,14 @@ pub fn c13(d: &Digest, out: &mut Vec<Violation>) {
         for sd in &d.stores {
             let Some(rt) = sd.rtid else { continue };
             let Some(rb) = d.run.out.blocked.iter().find(|b| b.tid == rt) else { continue };
-            let BlockOn::ChanSend(ch) = BlockOn::from(rb.obj) else { continue };
-            let Some((it, _)) = d.iter_chan.iter().find(|(_, c)| **c == ch) else { continue };
+            // blocked on an iterator's queue (or, where that queue is no channel, on a condition variable)
+            let its: Vec<(usize, Option<u32>)> = match BlockOn::from(rb.obj) {
+                BlockOn::ChanSend(ch) => d.iter_chan.iter().filter(|(_, c)| **c == ch).map(|(it, c)| (*it, Some(*c))).collect(),
+                BlockOn::Condvar => iters_of(sd.idx).into_iter().map(|it| (it, None)).collect(),
+                _ => continue,
+            };
+            for (it, ch) in its {
+            let it = &it;
             // the thread that made the latest next() call on that iterator
             let consumer = d.ev.iter().rev().find_map(|e| match &e.k {
                 K::NextB { it: i } if i == it => Some(e.tid),
@@ -267,12 +306,15 @@ pub fn c13(d: &Digest, out: &mut Vec<Violation>) {
             // ... or it already delivered this action to that iterator (one send per action):
             // a second send can only be the shutdown marker (the dispatch queue may have ended
             // by disconnection, without a marker being taken)
-            let sends_since = d.ev[last_take.unwrap_or(0)..].iter().filter(|e| e.tid == rt && matches!(&e.k, K::ChSend { chan, .. } if *chan == ch)).count();
+            let sends_since = d.ev[last_take.unwrap_or(0)..].iter().filter(|e| e.tid == rt && matches!(&e.k, K::ChSend { chan, .. } if Some(*chan) == ch)).count();
+            // (no dispatch queue or iterator queue to go by: the tree under test does not use channels for them)
+            let in_pipeline = in_pipeline && sd.dchan.is_some() && ch.is_some();
             // ... or the last action it processed does not notify at all (Keep / suppressed)
             let last_silent = sd.insts.last().map(|i| d.notify_exp(i) == NotifyExp::MustNot).unwrap_or(false);
             if stuck_consumer && (!in_pipeline || sends_since >= 1 || last_silent) {
                 vk(out, "C13", "deadlock", format!("shutdown holds the subscriber list while waiting for an iterator whose consumer needs the list: {}", blocked.join("; ")), "F8");
                 return;
+            }
             }
         }
     }
@@ -318,6 +360,9 @@ fn c13_complete(d: &Digest, out: &mut Vec<Violation>) {
                 // dropped before it was exhausted (its queue never disconnects)
                 let f4 = d.run.out.blocked.iter().any(|b| {
                     d.iter_chan.iter().any(|(it, ch)| BlockOn::from(b.obj) == BlockOn::ChanSend(*ch) && f4_signature(d, b.tid, *it))
+                        || (BlockOn::from(b.obj) == BlockOn::Condvar
+                            && sd.rtid == Some(b.tid)
+                            && d.calls.iter().any(|c| matches!(c.op, OpK::Iter { store, it } if store == sd.idx && f4_signature(d, b.tid, it))))
                 });
                 if f4 {
                     out.push(Violation { prop: "C13", clause: "stop-rescued-by-timeout", detail: format!("store {}: the reducer is blocked on the queue of a dropped iterator; stop() timed out", sd.idx), known: Some("F4") });
